@@ -15,7 +15,7 @@ def gen_config(rng, *, kinds=None, scheduler=None, loss_kinds=None, max_params=4
                max_points=40, ensemble=None, conv=None, params=None):
     P = int(rng.integers(1, max_params + 1)) if params is None else int(params)
     sd = G.gen_space(rng, dims=P, max_points=max_points)
-    D = int(rng.integers(1, 4)) if model in ("plain", "mut") else (int(rng.integers(1, 3)) if model == "huge" else 1)
+    D = int(rng.integers(1, 4)) if model in ("plain", "mut", "slow") else (int(rng.integers(1, 3)) if model == "huge" else 1)
     lk = str(rng.choice(loss_kinds or LOSS_KINDS))
     n_lo = max(12, -(-(P + M.HEADER) // D))
     N = int(rng.integers(n_lo, n_lo + 14))
